@@ -64,6 +64,17 @@ Theorem C15_sort_unique : forall l l' : list elem, consistent l ->
 Proof. exact sort_by_unique. Qed.
 Print Assumptions C15_sort_unique.
 
+(* the same, as a statement about sorting ALGORITHMS: whatever procedure returns an ordered stable
+   permutation (no bound on the length; Go's sort.Stable = insertion sort on blocks of 20 + symMerge
+   is such a procedure whenever the comparator is a total preorder, which it is on D) returns the
+   model's result.  The algorithm itself is not modelled above 20 elements; this theorem is why
+   that does not matter on D. *)
+Theorem C15_any_stable_sort_agrees : forall f : list elem -> list elem,
+  (forall l, Permutation l (f l) /\ StronglySorted elem_le (f l) /\ forall z, filter (elem_eqb z) (f l) = filter (elem_eqb z) l) ->
+  forall l, consistent l -> sort_by l = Ok (f l).
+Proof. exact any_stable_sort_agrees. Qed.
+Print Assumptions C15_any_stable_sort_agrees.
+
 (* ---------------- the comparator on D ---------------- *)
 Theorem C15_cmp_agrees_on : forall a b : scalar,
   pair_ok a b = true -> cmp_sign a b = Some (ord_cmp (vden a) (vden b)).
@@ -174,6 +185,10 @@ Example C15_example :
   /\ map e_id (match sort_by [E1 TInt "10" 0; E1 TStr "5" 1; E1 TInt "9" 2] with Ok r => r | _ => [] end) = [2; 0; 1]%N
   /\ cmp_sign (Sx TInt "0x10") (Sx TFloat "1.5") = Some Gt /\ cmp_sign (Sx TFloat ".inf") (Sx TFloat "1.5") = Some Gt
   /\ cmp_sign (Sx TNull "~") (Sx TNull "null") = Some Eq
+  (* floats with exponents, leading dot, trailing dot, sign: all in D, ordered by their binary64 value *)
+  /\ (let e := [E1 TFloat "1e3" 0; E1 TFloat "2.5e-3" 1; E1 TFloat "-1E2" 2; E1 TFloat ".5" 3; E1 TFloat "1." 4; E1 TInt "1000" 5;
+                 E1 TFloat "1.7976931348623157e308" 6; E1 TFloat "5e-324" 7; E1 TFloat "+2.5" 8] in
+      consistentb e = true /\ map e_id (match sort_by e with Ok r => r | _ => [] end) = [2; 7; 1; 3; 4; 8; 0; 5; 6]%N)
   (* what is still outside D *)
   /\ consistentb [E1 TInt "9007199254740993" 0; E1 TFloat "1.0" 1] = false
   /\ consistentb [E1 TFloat ".nan" 0; E1 TFloat "1.0" 1] = false
